@@ -393,6 +393,11 @@ def run(ctx, rep):
         # inserted before the range check / the read succeeded turns the error of the first query into zeros for the second)
         from ..streamrules import rule_io_protocol
         rule_io_protocol(F, rep, "stream-refusal-leaves-no-buffer")
+        # ... and what a query gets back is the range it asked for, whatever earlier queries left in the cache (a buffer cached for another
+        # range with the same start, handed back whole, makes the answer depend on which earlier query succeeded on the prefix)
+        from ..streamrules import rule_cache_protocol, rule_load_before_get
+        rule_cache_protocol(F, rep, "stream-cache-exact-range")
+        rule_load_before_get(F, rep, "stream-load-before-get")
     rep.info["argument"] = EXPLANATION_PROOF
     # "bounded parses read the buffer only through get(a..b)": the read template, C04
     from ._common import premise
